@@ -78,7 +78,7 @@ def run(chk):
     chk.rule = ("(T1) operation sequences (add each real connection once, remove by peer, remove by connection, subscribe, list) over 2-3 peers with 1-3 real quinn "
                 "connections each (both origins), applied to the real ActivePeers; after every operation result, drained events, locally closed connections and the listing "
                 "(peer:connection) are compared with ActivePeers.v; thorough adds every sequence of length <= 4 over the alphabet of a fixed setup; "
-                "(T2) 8 threads issue random operations, the H4 trace gives the linearisation which the model replays; "
+                "(T2) 8 threads issue random operations, the H4 trace gives the linearisation which the model replays; (T3) whole networks on the fabric (dials, disconnects, restarts, partitions): every ActivePeers instance's recorded operations with the pre-state each saw replayed on the model, event log and final listing compared; (S) real-time stress: subscriptions taken while two threads change the set must each be an exact change log of their own snapshot; "
                 "distinct = case text; non-trivial = at least one tie-break (second connection of a listed peer) occurred")
     if not chk.prepare():
         return
